@@ -318,6 +318,16 @@ func (m *mon) opSale() {
 		return
 	}
 	for _, e := range evs {
+		if m.lastObserved(e.Chain) < e.Nonce {
+			// a panic in an earlier event's handler (caught by the end-blocker's recover) ends the tally of
+			// that block; the remaining events are tallied in the next one
+			m.rec.Count("sale_tally_continued_next_block", 1)
+			if br := m.c.NextBlock(); br.Panic != "" || br.Err != nil {
+				m.rec.Inconclusive("block failed")
+				m.dead = true
+				return
+			}
+		}
 		if got := m.lastObserved(e.Chain); got < e.Nonce {
 			m.rec.Inconclusive(fmt.Sprintf("sale event %d on %s was not attested (last observed %d)", e.Nonce, e.Chain, got))
 			m.dead = true
@@ -391,6 +401,9 @@ func (m *mon) evaluateSale(evs []*saleEv, pre *obs, preDump map[string]map[strin
 		m.distinct("sale", e.Class+":"+e.Why, ok(e.Accepted), e.Form+"|"+e.AmtKind)
 	}
 	op["events"] = evs
+	if m.dead {
+		return
+	}
 	// who paid: some assignment of the accepted sales to configured funders whose balance covered the
 	// price at that moment must explain the funders' balances exactly
 	if len(accepted) > 0 {
@@ -535,6 +548,12 @@ func (m *mon) opHostileSale() {
 			m.settle("hostile-sale", "claim-rejected", pre.clone(), op)
 			return
 		}
+	}
+	if got := m.lastObserved(ch); got < e.Nonce {
+		// the handler panicked inside the skyway end-blocker's recover(): the event stays unobserved and
+		// is retried (and panics) in every block - the chain's bridge cursor is stuck. Outside C18.
+		m.rec.Count("hostile_sale_leaves_bridge_cursor_stuck", 1)
+		m.rec.Sample(map[string]any{"observation": "an attested sale claim with a hostile amount is never marked observed: the skyway nonce of the chain stops advancing (outside C18; see C09/C02)", "amount_grain": amt.String(), "chain": ch, "nonce": e.Nonce})
 	}
 	m.evaluateSale([]*saleEv{e}, pre, preDump, op)
 }
